@@ -119,5 +119,5 @@ func execC05Ids(e *Env, pp any) {
 }
 
 func init() {
-	Register(&Family{Name: "c05.ids", Props: []string{"C05"}, New: func() any { return &C05IdsParams{} }, Gen: genC05Ids, Exec: execC05Ids})
+	Register(&Family{Name: "c05.ids", ShrinkKeys: []string{"callers", "per_caller"}, Props: []string{"C05"}, New: func() any { return &C05IdsParams{} }, Gen: genC05Ids, Exec: execC05Ids})
 }
